@@ -219,6 +219,14 @@ def _block(repo, col):
                     n += 1
                     col.check(not traced, R, fi, f"{unparse(c)[:60]} in {fi.qual}", "integer cast of an index array",
                               f"`{unparse(c)[:80]}` casts a traced value to an integer: the gradient is cut", node=c)
+        # ... also when the primitive is handed on as a function: tree_map(jax.lax.stop_gradient, xs), vmap(stop_gradient)(x)
+        called = {id(c.func) for c in ast.walk(fi.node) if isinstance(c, ast.Call)}
+        for x in ast.walk(fi.node):
+            nm_ = x.attr if isinstance(x, ast.Attribute) else (x.id if isinstance(x, ast.Name) else None)
+            if nm_ in ("stop_gradient",) and id(x) not in called and isinstance(getattr(x, "ctx", None), ast.Load):
+                n += 1
+                col.bad(R, fi, f"{unparse(x)} handed on as a function in {fi.qual}", f"`{unparse(x)}` is applied through a higher-order call (tree_map / vmap / map): "
+                        f"whatever it is mapped over reaches the simulation as a constant, its gradient is exactly 0", node=x)
         for d in getattr(fi.node, "decorator_list", []):
             dn = unparse(d)
             if any(b in dn for b in ("custom_jvp", "custom_vjp")):
